@@ -396,14 +396,14 @@ class Node:
         """Predecessor or None, if node is first sibling."""
         if self.is_first_sibling():
             return None
-        idx = self._parent._children.index(self)  # pyright: ignore[reportOptionalMemberAccess]
+        idx = self._index_in_parent()
         return self._parent._children[idx - 1]  # pyright: ignore[reportOptionalSubscript]
 
     def next_sibling(self) -> Node | None:
         """Return successor or None, if node is last sibling."""
         if self.is_last_sibling():
             return None
-        idx = self._parent._children.index(self)  # type: ignore
+        idx = self._index_in_parent()
         return self._parent._children[idx + 1]  # type: ignore
 
     def last_sibling(self) -> Node:
@@ -455,9 +455,20 @@ class Node:
         _ch(self, 0)
         return height
 
+    def _index_in_parent(self) -> int:
+        """Return the position of this node in its parent's child list.
+
+        NOTE: `list.index()` checks for equality ('=='), i.e. compares node.data,
+        so it may find an equal-comparing sibling instead of `self`.
+        """
+        for i, n in enumerate(self._parent._children):  # type: ignore
+            if n is self:
+                return i
+        raise ValueError(f"{self} is not a child of its parent")
+
     def get_index(self) -> int:
         """Return index in sibling list."""
-        return self._parent._children.index(self)  # type: ignore
+        return self._index_in_parent()
 
     # --------------------------------------------------------------------------
 
